@@ -1,4 +1,4 @@
-import Wip.DX8
+import Cutadapt.Proofs.DpExactOrigin
 /-! Exactness of the banded DP, part 9: where the reported match lies relative to the leftmost error-free copy. -/
 namespace Cutadapt.Align.Exact
 open Cutadapt Cutadapt.Align Cutadapt.Spec Cutadapt.Generated Cutadapt.Align.Sound Cutadapt.MatchSound
